@@ -74,6 +74,11 @@ def scenarios(tier):
     # degenerate settings: watermark 0; watermark below send_bytes with a backlog in between
     S.append(("watermark=0", dict(pre=one, workers=1, window=20, drains=[None], adj=dict(outbuf_high_watermark=0), programs={"/r1": dict(body=big, cl=False)}), 1))
     S.append(("watermark<send_bytes", dict(pre=one, workers=1, window=60, drains=[None], adj=dict(outbuf_high_watermark=8, send_bytes=100), programs={"/r1": dict(body=["y" * 8] * 3, cl=False)}), 1))
+    S.append(("watermark<send_bytes,trickling client", dict(pre=one, workers=1, window=60, drains=[20, None], adj=dict(outbuf_high_watermark=8, send_bytes=100), programs={"/r1": dict(body=["y" * 8] * 3, cl=False)}), 1 if q else 2))
+    S.append(("watermark<send_bytes,trickling client,request read by the I/O thread", dict(pre="", segments=[(one, None), ("@drain:20", None), ("@drain:None", None)], workers=1, window=60, adj=dict(outbuf_high_watermark=8, send_bytes=100), programs={"/r1": dict(body=["y" * 8] * 3, cl=False)}), 1 if q else 2))
+    # the next request is already in the socket when the worker finishes the first one (lookahead)
+    S.append(("second-request-already-buffered,lookahead=1", dict(pre=one, inq=c04.req(2).decode("latin-1"), workers=1, lookahead=1), 1 if q else 2))
+    S.append(("second-request-already-buffered,lookahead=1,2 workers", dict(pre=one, inq=c04.req(2).decode("latin-1"), workers=2, lookahead=1), 1 if q else 2))
     # close decided by the worker (Connection: close): the loop must be woken to close
     S.append(("close-after-response", dict(pre=c04.req(1, extra=["Connection: close"]).decode("latin-1"), workers=1), 2))
     S.append(("close-after-response,window", dict(pre=c04.req(1, extra=["Connection: close"]).decode("latin-1"), workers=1, window=30, drains=[None], programs={"/r1": dict(body=big)}), 1 if q else 2))
